@@ -56,9 +56,10 @@ def kwDepth : Bytes := Gen.uDepth_str.toUTF8.toList.map (·.toNat)
 def goScan : List Bytes → GoAcc → M GoScan
   | [], a => pure (.done a)
   | tok :: rest, a =>
+    -- the value following a keyword; empty (not a number) when the keyword comes last
     let arg : M Bytes := match rest with
       | nxt :: _ => pure nxt
-      | [] => throw (.index "tokens" 0)
+      | [] => pure []
     if tok == kwMoveTime then do
       let s ← arg
       match atoi s with
@@ -79,12 +80,14 @@ def goScan : List Bytes → GoAcc → M GoScan
       match atoi s with | none => pure .reject | some v => goScan rest { a with blackInc := v }
     else if tok == kwMovesToGo then do
       let s ← arg
-      match atoi s with | none => pure .reject | some v => goScan rest { a with movesToGo := v }
+      match atoi s with
+      | none => pure .reject
+      | some v => if v < 1 then pure .reject else goScan rest { a with movesToGo := v }
     else if tok == kwDepth then do
       let s ← arg
       match atoi s with
       | none => pure .reject
-      | some v => if v < 1 then pure .reject else goScan rest { a with depth := v }
+      | some v => if v < 1 then pure .reject else goScan rest { a with depth := min v Gen.MaxSearchDepth }
     else goScan rest a
 
 /-- `doGo` up to the point where the search goroutine is spawned; `none` = returned without searching.
